@@ -322,7 +322,31 @@ def c08(ctx):
     ctx.coverage['evaluations'] = ctx.coverage['programs']
 
 
+# ---------------------------------------------------------------- C09
+class DerefRender(TypeRender):
+    def extra_items(self):
+        return self.addrs_impl()
+
+
+def c09(ctx):
+    quick = ctx.tier == 'quick'
+    runs = [{'module': 'MC_C09', 'cfg': 'MC_C09_quick.cfg', 'workers': 8}] if quick else \
+           [{'module': 'MC_C09', 'cfg': 'MC_C09_thorough.cfg', 'workers': 12, 'timeout': 3000, 'heap': '16g'}]
+
+    def calls(r):
+        if 'DerefMut' in r.traits:
+            return ['run_deref_mut::<%s, _>(&mut out, &dom);' % r.name]
+        return ['run_deref::<%s, _>(&mut out, &dom);' % r.name]
+
+    r_property(ctx, runs, ['DoSeal', 'DoBegin', 'Step', 'Return'], DerefRender, calls, [0, 1],
+               COMMON_ASSUMPTIONS + ['fields are 4-byte probes at pairwise distinct addresses, so pointer identity identifies the field'],
+               'struct/enum shapes (named and tuple, 1..MaxFields fields per variant) within the bounds of the MC_C09 cfg x every position of the Deref marker x every '
+               'position of the DerefMut marker (independent) x value / &-reference field types; for every value: which field &*x and &mut *x point at (pointer identity), '
+               'and the fingerprint of all fields after writing through &mut *x; non-trivial = more than one variant or field')
+
+
 REGISTRY = {
+    'C09': c09,
     'C08': c08,
     'C06': c06,
     'C07': c07,
